@@ -128,6 +128,10 @@ func (t *Telnet) handleControlChars(a *Args) error {
 func (t *Telnet) Open(a *Args) error {
 	var err error
 
+	// a previous open that failed part way through option negotiation may have left the data it
+	// buffered behind -- it belongs to that (dead) connection, not to this one
+	t.initialBuf = nil
+
 	t.c, err = net.Dial(tcp, fmt.Sprintf("%s:%d", a.Host, a.Port))
 	if err != nil {
 		return err
